@@ -176,7 +176,10 @@ theorem pushRejected_ok (cfg : ScanCfg) (s : Scanner) (pos : Nat) (tok : Tok) (h
     dsimp only
     by_cases hr : (s1.parser.push cfg.lang tok.lower).1.isNone = true
     · rw [if_pos hr]; exact ⟨_, rfl, TrInv.advanced h2⟩
-    · rw [if_neg hr]; exact ⟨_, rfl, TrInv.mono (outside_inv cfg _ tok pos h2) (by omega)⟩
+    · rw [if_neg hr]
+      by_cases hi : ((s1.parser.push cfg.lang tok.lower).1 == some Err.incomplete) = true
+      · rw [if_pos hi]; exact ⟨_, rfl, TrInv.mono h2 (by omega)⟩
+      · rw [if_neg hi]; exact ⟨_, rfl, TrInv.mono (outside_inv cfg _ tok pos h2) (by omega)⟩
   · rw [if_neg hn]
     exact ⟨_, rfl, TrInv.mono (outside_inv cfg s tok pos h) (by omega)⟩
 
